@@ -2,7 +2,7 @@
 From Coq Require Import ZArith List String Bool Lia.
 Import ListNotations.
 From MV Require Import Symmetry.Table Symmetry.Affine Reflect.GroupChecks Reflect.GroupChecksProofs
-  Reflect.NormChecks Reflect.NormChecksProofs.
+  Reflect.NormChecks Reflect.NormChecksProofs Reflect.CertProofs.
 From MVD Require Import Generated.SGAll Generated.RefSpglib Generated.ChkAll.
 Open Scope Z_scope.
 
@@ -79,4 +79,20 @@ Proof.
       + inversion Hrn; inversion Hcs; subst. left. reflexivity.
       + right. apply (IH cl' k); assumption. }
   specialize (Hall _ Hin). simpl in Hall. apply norm_ok_parts. exact Hall.
+Qed.
+
+(* what the letter clause of a normalizer means: for every letter, the image under n of the family of
+   its first representative is, as a set of points for ALL rational parameter values, the family of an
+   expression of the tabulated image letter shifted by an integer lattice vector, and conversely *)
+Lemma letter_families tr ws n p cs :
+  letters_ok tr ws n p cs = true ->
+  forall w c, In (w, c) (combine ws cs) ->
+    exists l' w' e1 e2, perm_get p (iw_letter w) = Some l' /\ find_wyck ws l' = Some w'
+      /\ hd_error (iw_exprs w) = Some e1 /\ nth_error (full_exprs tr w') (lc_j c) = Some e2
+      /\ (forall W, exists W', q3eq (aff_evalQ (act n e1) W) (q3add (aff_evalQ e2 W') (z_as_Q (lc_z c))))
+      /\ (forall W', exists W, q3eq (q3add (aff_evalQ e2 W') (z_as_Q (lc_z c))) (aff_evalQ (act n e1) W)).
+Proof.
+  intros H w c Hin. destruct (letters_ok_sound tr ws n p cs H w c Hin) as [l' [w' [e1 [H1 [H2 [H3 H4]]]]]].
+  destruct (cert_ok_sound n e1 (full_exprs tr w') c H4) as [e2 [H5 [H6 H7]]].
+  exists l', w', e1, e2. auto 10.
 Qed.
